@@ -28,5 +28,6 @@ def run(rep, tier, seed):
     rep.level = "exploration"
     rep.assume("A1", "A4", "A6", "A7", "A8")
     D.run_contracts(rep, "C07", D.PART_HEUR + D.FIT + D.COVER + D.TQ + D.exact() + D.CBLDM, tier, with_lemmas=False, only_tagged=True)
+    D.run_contracts(rep, "C07", D.adaptors(), tier, only_tagged=True)
     t3(rep, tier, seed)
     D.link_falsifier(rep)
